@@ -274,7 +274,7 @@ Fixpoint pp (fl : pflags) (fuel : nat) (p : nat) (ts : list tok) {struct fuel} :
 
 (* BooleanExpression.parse: the whole token list must be consumed *)
 Definition parse (fl : pflags) (ts : list tok) : res bexpr :=
-  do x <- pp fl (2 * length ts + 2) 1 ts;
+  do x <- pp fl (4 * length ts + 4) 1 ts;
   match snd x with [] => Ok (fst x) | _ => Err ESyntax end.
 
 (* ---- conditional constructs: which branch is rendered ---- *)
